@@ -3,6 +3,9 @@ package main
 import (
 	"fmt"
 	"os"
+
+	"golang.org/x/tools/go/ssa"
+
 	"path/filepath"
 	"regexp"
 	"sort"
@@ -57,6 +60,8 @@ type Clause struct {
 	Props []string
 	Name  string
 	Line  int
+	// Gen builds an inferred (template) invariant directly over SSA values.
+	Gen func(get func(ssa.Value) (Term, bool), st *State) (Term, bool)
 }
 
 type LoopSpec struct {
